@@ -245,8 +245,11 @@ DPut(d, k, v) == IF DIn(d, k) THEN [j \in DOMAIN d |-> IF d[j].k = k THEN [k |->
                  ELSE Append(d, [k |-> k, v |-> v])               \* d[k] = v
 
 \* self._patches = []; self._patches_by_key = {'name': {}, 'values': {}}
-ImplInit == [status |-> "ok", patches |-> <<>>,
-             byKey |-> <<[k |-> StrKey("name"), v |-> BK], [k |-> StrKey("values"), v |-> BK]>>]
+\* (shared = FALSE is the dictionary without the two bookkeeping entries, `{}`: the proposed repair)
+ImplInitWith(shared) ==
+  [status |-> "ok", patches |-> <<>>,
+   byKey |-> IF shared THEN <<[k |-> StrKey("name"), v |-> BK], [k |-> StrKey("values"), v |-> BK]>> ELSE <<>>]
+ImplInit == ImplInitWith(TRUE)
 
 \* body of `for patchspec in spec['patches']:` -- the three checks in the order of the code
 ImplRegister(st, p, nl) ==
